@@ -733,7 +733,10 @@ ARB_FLOAT_PAIRS = [("0.0", "1.0"), ("-5.5", "1e3"), ("0.0", "10.0"), ("64.0", "6
                    ("1e-40", "1e-39"), ("-3.0e38", "3.0e38"), ("16777216.0", "16777218.0"), ("-1.0", "0.0"),
                    ("0.1", "0.3"), ("-0.0", "0.0"), ("5", "7.25"), ("-65.0", "-64.0"), ("1e30", "2e30"),
                    # lower + fl(upper - lower) exceeds the upper bound for these (rounding of the range)
-                   ("-1.1", "0.1"), ("-3.3", "0.1"), ("-956.078", "0.9478")]
+                   ("-1.1", "0.1"), ("-3.3", "0.1"), ("-956.078", "0.9478"),
+                   # large magnitude, same sign (the distance does not overflow, base value + bound may)
+                   ("3.0e38", "3.2e38"), ("-3.2e38", "-3.0e38")]
+ARB_FLOAT_PAIRS_F64 = [("1.7e308", "1.75e308"), ("-1.75e308", "-1.7e308"), ("-1e308", "1e308")]
 
 
 def gen_arb_floats(rng, tier, start=0):
@@ -741,11 +744,19 @@ def gen_arb_floats(rng, tier, start=0):
     for ti, ty in enumerate(("f32", "f64")):
         is64 = FLOAT_TYPES[ty]
         per = 44 if tier == "quick" else 154
+        pairs = ARB_FLOAT_PAIRS + (ARB_FLOAT_PAIRS_F64 if is64 else [])
+        plan = []
         for j in range(per):
-            shape = ARB_FLOAT_SHAPES[(j + ti) % len(ARB_FLOAT_SHAPES)]
-            lo_t, hi_t = ARB_FLOAT_PAIRS[(j * 3 + ti) % len(ARB_FLOAT_PAIRS)]
-            lk = LOWER[(j // 2) % 2]
-            uk = UPPER[(j // 3) % 2]
+            plan.append((ARB_FLOAT_SHAPES[(j + ti) % len(ARB_FLOAT_SHAPES)], pairs[(j * 3 + ti) % len(pairs)],
+                         LOWER[(j // 2) % 2], UPPER[(j // 3) % 2]))
+        # large magnitudes and overshooting pairs in every one- and two-sided shape, inclusive and exclusive
+        big = [p for p in pairs if p[0] in ("3.0e38", "-3.2e38", "1.7e308", "-1.75e308", "-1e308", "-1.1", "-956.078")]
+        for pi, pr in enumerate(big):
+            for si, shape in enumerate((["F", "L"], ["F", "U"], ["L"], ["U"], ["F", "L", "U"], ["L", "U"])):
+                plan.append((shape, pr, LOWER[(pi + si) % 2], UPPER[(pi + si // 2) % 2]))
+                if tier != "quick":
+                    plan.append((shape, pr, LOWER[(pi + si + 1) % 2], UPPER[(pi + si // 2 + 1) % 2]))
+        for j, (shape, (lo_t, hi_t), lk, uk) in enumerate(plan):
             if "L" in shape and "U" in shape and fbits(lo_t, is64) & ~(1 << (63 if is64 else 31)) == 0 and fbits(hi_t, is64) & ~(1 << (63 if is64 else 31)) == 0:
                 lk, uk = "greater_or_equal", "less_or_equal"
             env = []
